@@ -321,6 +321,8 @@ package service
 //@ func (*OrdaService).PatchDocument
 //@   mode wrap
 //@   props C19 C16 C12
+//@   calls-after TryLock GetDatatypeByKey
+//@   calls-after TryLock GetLatestDatatype
 //@   requires svcWF(its) && req != nil && G.stored < 4611686018427387904
 //@   ensures[answer-or-error] (result0 != nil) == (result1 == nil)
 //@   ensures[continues-at-rebuilt-version] result1 == nil && G.stored >= 1 && G.receiveCalls > old(G.receiveCalls) ==> G.cpSets == old(G.cpSets) + 1 && G.cpSetSseq == G.stored && G.cpSetCseq == 0
